@@ -198,6 +198,14 @@ impl Ty for (u64, u32) {
         (<(u64, u32) as Value>::from_bytes(b).0, 0)
     }
 }
+impl Ty for (u64, UserU32) {
+    fn enc(i: u64, _: usize) -> Vec<u8> {
+        bytes_of::<(u64, UserU32)>(&(i, (i as u32).wrapping_mul(3)))
+    }
+    fn dec(b: &[u8]) -> (u64, usize) {
+        (<(u64, UserU32) as Value>::from_bytes(b).0, 0)
+    }
+}
 impl Ty for (u64, &'static [u8]) {
     fn enc(i: u64, pad: usize) -> Vec<u8> {
         let p = pat(i, pad);
@@ -234,7 +242,7 @@ pub struct TId {
     width: Option<usize>,
 }
 
-pub const TYPES: [&str; 14] = ["u64", "u32", "bytes", "str", "string", "user", "user4", "useru32", "optu32", "optuser", "tupf", "tupv", "arr4", "arr4r"];
+pub const TYPES: [&str; 15] = ["u64", "u32", "bytes", "str", "string", "user", "user4", "useru32", "optu32", "optuser", "tupf", "tupuser", "tupv", "arr4", "arr4r"];
 
 fn tid(tok: &str) -> TId {
     let (canon, legacy, width): (&str, Option<&str>, Option<usize>) = match tok {
@@ -249,6 +257,9 @@ fn tid(tok: &str) -> TId {
         "optu32" => ("4:Option<u32>", Some("1:Option<u32>"), Some(5)),
         "optuser" => ("2:Option<u32>", Some("1:Option<u32>"), Some(5)),
         "tupf" => ("4:(u64,u32)", Some("1:(u64,u32)"), Some(12)),
+        // a user-defined element (whose name collides with a built-in) NOT in first position: the
+        // tuple as a whole is user-defined and differs from (u64,u32)
+        "tupuser" => ("2:(u64,u32)", Some("1:(u64,u32)"), Some(12)),
         "tupv" => ("4:(u64,&[u8])", Some("3:(u64,&[u8])"), None),
         "arr4" | "arr4r" => ("4:[u8;4]", Some("1:[u8;4]"), Some(4)),
         other => panic!("unknown type token {other}"),
@@ -257,7 +268,8 @@ fn tid(tok: &str) -> TId {
 }
 
 /// the (key, value) pairs for which handles are instantiated
-pub const PAIRS: [(&str, &str); 24] = [
+pub const PAIRS: [(&str, &str); 25] = [
+    ("tupuser", "bytes"),
     ("u64", "u64"),
     ("u64", "bytes"),
     ("str", "bytes"),
@@ -307,6 +319,7 @@ macro_rules! with_pair {
             ("u64", "user") => $f::<u64, UserT>($($args),*),
             ("u64", "user4") => $f::<u64, UserT4>($($args),*),
             ("tupf", "bytes") => $f::<(u64, u32), &'static [u8]>($($args),*),
+            ("tupuser", "bytes") => $f::<(u64, UserU32), &'static [u8]>($($args),*),
             ("u64", "tupv") => $f::<u64, (u64, &'static [u8])>($($args),*),
             ("arr4", "arr4r") => $f::<[u8; 4], &'static [u8; 4]>($($args),*),
             ("arr4r", "arr4") => $f::<&'static [u8; 4], [u8; 4]>($($args),*),
@@ -333,6 +346,7 @@ macro_rules! with_type {
             "optu32" => $f::<Option<u32>>(),
             "optuser" => $f::<Option<UserU32>>(),
             "tupf" => $f::<(u64, u32)>(),
+            "tupuser" => $f::<(u64, UserU32)>(),
             "tupv" => $f::<(u64, &'static [u8])>(),
             "arr4" => $f::<[u8; 4]>(),
             "arr4r" => $f::<&'static [u8; 4]>(),
